@@ -168,6 +168,21 @@ func c06Build(template string) (*c06Prog, bool) {
 		u0, t0 := p.text(o, "", nil)
 		u1, t1 := p.text(o, "", nil)
 		w("script %s {\n  %s\n  %s\n}", s.Placeholder(), p.cmdWith(u0, "@"+t0), p.cmdWith(u1, "@"+t1))
+	case "four":
+		s, o := script()
+		var ls []string
+		for i := 0; i < 4; i++ {
+			u, t := p.text(o, "", nil)
+			ls = append(ls, "  "+p.cmdWith(u, "@"+t))
+		}
+		w("script %s {\n%s\n}", s.Placeholder(), strings.Join(ls, "\n"))
+	case "three-scripts":
+		for i := 0; i < 3; i++ {
+			s, o := script()
+			u0, t0 := p.text(o, "", nil)
+			u1, m1 := p.moves(o, 1)
+			w("script %s {\n  %s\n  %s\n}", s.Placeholder(), p.cmdWith(u0, "@"+t0), p.cmdWith(u1, "@"+m1))
+		}
 	case "types":
 		s, o := script()
 		var lines []string
@@ -567,13 +582,19 @@ var c06Templates = []string{"one", "second-arg", "two", "types", "same-content-d
 // RunC06 is the check of property C06.
 func RunC06(env *Env, rep *Report) {
 	var cases []*Case
-	for _, t := range c06Templates {
+	tpls := c06Templates
+	if env.Tier == "thorough" {
+		// four texts in one script (all 15 equality patterns) and three scripts
+		// with a text and a moves() each (sharing across scripts)
+		tpls = append(append([]string{}, c06Templates...), "four", "three-scripts")
+	}
+	for _, t := range tpls {
 		cases = append(cases, c06Case(t))
 	}
 	cases = append(cases, c06PairCase(), c06ClashCase("text"), c06ClashCase("movement"), c06ClashCaseAt("text", true), c06ClashCaseAt("movement", true))
 	rep.Technique = "symbolic execution of the real inline-text / moves() hoisting (go/ssa) with symbolic contents; the sharing pattern (which contents are equal) is enumerated by the solver through the parser's own set lookups (z3 seq + LIA)"
 	rep.Explanation = "Bounded symbolic verification, not a proof. Program templates placing inline texts and moves() in every position the property names (plain command, later argument, two in one command, inside if/else/while, switch, an autovar condition in an &&-chain and in a parenthesised group, a poryswitch case selected / not selected, inline map scripts incl. table rows, several scripts) are compiled by symbolic execution of the real code with the text contents as unconstrained SMT strings, string types none/ascii/braille/symbolic, step names symbolic. The parser's dedup lookups (inlineTextsSet / inlineMovementsSet) and the terminator test are decision points, so the solver enumerates every equality pattern among the contents and every 'already terminated' combination. Per path the oracle recomputes - forking on any equality the code did not decide - the expected label of every use (first appearance numbering per owning script, shared iff same final content and same type) and asserts: the command carries exactly that label; the label is defined exactly once with exactly that content and directive; nothing else is hoisted; no command is left with an empty argument. Two clash cases use String-sorted names so that 'user text/movement name = generated label' is found by the solver: it must be a compile error."
-	rep.Bounds = map[string]interface{}{"templates": append(append([]string{}, c06Templates...), "typed-then-untyped-one-command", "clash-text", "clash-movement", "clash-text-user-statement-first", "clash-movement-user-statement-first"), "max_inline_texts_per_program": 3, "max_moves_per_program": 2}
+	rep.Bounds = map[string]interface{}{"templates": append(append([]string{}, tpls...), "typed-then-untyped-one-command", "clash-text", "clash-movement", "clash-text-user-statement-first", "clash-movement-user-statement-first"), "max_inline_texts_per_program": map[string]int{"quick": 3, "thorough": 4}[env.Tier], "max_moves_per_program": map[string]int{"quick": 2, "thorough": 3}[env.Tier]}
 	rep.Outside = []string{"more than 3 inline texts / 2 moves() per program", "format() texts (C07)", "text contents outside printable ASCII"}
 	rep.Assumptions = []string{"text contents are printable ASCII without '\"'", "names are generic identifiers (Int-coded) except in the clash cases"}
 	rep.Functions = []string{"parseCommandStatement", "addImplicitData", "addImplicitTexts", "addImplicitMovements", "getMovementsKey", "getImplicitTextLabel", "getImplicitMovementLabel", "ParseProgram", "formatTextTerminator", "emitText", "emitMovementStatement", "parseMovesOperator", "parsePoryswitchStatement", "parseMapscriptsStatement"}
